@@ -893,6 +893,26 @@ def bad_chars_family(col):
     col.exhaustive[sub] = True
 
 
+CONFUSABLE_SEEDS = VALID_SEEDS + [
+    'AA-BB-CC-DD-EE-FF', '0a:1b:2c:3d:4e:5f', 'fe80::ff:1%eth0/64', '65535',
+    '0', '192.168.254.254/32', 'abcd:ef01:2345:6789:abcd:ef01:2345:6789',
+    '::ffff:10.0.0.255', '1.2.3.4/255.255.255.0']
+
+
+def confusable_family(col):
+    """Every single substitution, into a valid string, of a non-ASCII code
+    point that lower(), casefold(), upper(), NFKC/NFKD or the Unicode digit
+    tables map onto the ASCII text it replaces (U+FB00 for 'ff', fullwidth
+    and Arabic-Indic digits, fullwidth ':' '.' '/')."""
+    from vcheck import confusables
+    sub = 'confusable/family'
+    funcs = _funcs()
+    for seed in CONFUSABLE_SEEDS:
+        for m, via, _pos in confusables.substitutions(seed):
+            check_string(col, sub, m, 'via/' + via, True, funcs)
+    col.exhaustive[sub] = True
+
+
 def search(col, name, seed, n):
     funcs = _funcs()
     core.run_given(
@@ -1030,7 +1050,8 @@ def tasks(tier, seed):
            for f in (F_RAISES, F_LENIENT, F_MACNL, F_SCOPESLASH)]
     out += [Task('mac/family', mac_family),
             Task('int/odd', int_odd),
-            Task('badchar/family', bad_chars_family)]
+            Task('badchar/family', bad_chars_family),
+            Task('confusable/family', confusable_family)]
     for length in (1, 2, 3, 4, 5):
         out.append(Task('ipv4/family', ipv4_family, length=length))
     for p in range(4):
